@@ -253,6 +253,8 @@ func NewPathBinKey(key []byte) Path {
 func GetDescByPath(desc *thrift.TypeDescriptor, path ...Path) (ret *thrift.TypeDescriptor, err error) {
 	ret = desc
 	for _, p := range path {
+		// NOTICE: walk from the descriptor of the previous layer, not from the root
+		desc = ret
 		switch desc.Type() {
 		case thrift.STRUCT:
 			switch p.Type() {
